@@ -320,6 +320,24 @@ def rule_CC(run: Run) -> RuleResult:
             for p_ in missing:
                 res.add(f"{site}:drops {p_}", False, m.relpath, call.lineno,
                         f"{ast.unparse(call)[:90]} … does not pass '{p_}'" + (": the copy memoises on its own, the body runs once per copy" if p_ == "cache" else ""), nec)
+    # a dataset owns its list of effects: the constructor keeps a copy of the list it is handed (derived datasets are built from
+    # ``self.effects``; sharing the list, add_effects on one of them attaches the effect to all)
+    ds_ = repo.cls("Dataset")
+    di_ = ds_.methods.get("__init__")
+    if di_ is not None:
+        from .interp import analyse_function as _af
+        ok_e, why_e, n_e = True, "", 0
+        for p in _af(Ctx(repo), ds_.module, di_, cls=ds_):
+            for e in p.events:
+                if e.kind == "store" and len(e.args) == 2 and e.args[0].key() == "self" and e.args[1].key() == Const("effects").key() and e.target is not None:
+                    n_e += 1
+                    k_ = e.target.key()
+                    if k_ == "effects" or k_.startswith("or(effects"):
+                        ok_e, why_e = False, f"self.effects = {k_[:60]}: the list handed in is kept as it is"
+        res.add("labrea.dataset.Dataset.__init__:keeps a copy of the effects list it is handed", ok_e and n_e > 0, ds_.module.relpath, di_.lineno,
+                why_e or "effects.copy() / list(effects)",
+                "effects attached to one dataset run once per execution of that dataset's body (C02); a list shared with the datasets derived from it "
+                "(with_options, with_default_options, the factory's siblings) makes an effect added to one fire for all")
     if not any("dataset(...) rebuilt" in o.construct for o in res.obligations):
         res.add("labrea:no dataset(...) rebuilt from the parts of another dataset", True, "", 0, "no call of the dataset factory reads two or more fields of one existing dataset", nec, trivial=True)
     res.count("sites", n_sites)
@@ -701,6 +719,11 @@ def rule_OC(run: Run) -> RuleResult:
         elif ck in ("call:cache(self)", "valuecall(attr:cache(self))", "callres(attr:cache(self))", "call:attr:cache(self)"):
             ok = True
             form = "the result of calling the factory here"
+        elif isinstance(c, Sym) and c.head == "oneof" and c.args and all(
+                a_.key() in ("call:cache(self)", "valuecall(attr:cache(self))", "callres(attr:cache(self))", "call:attr:cache(self)") or a_.key().startswith("new:MemoryCache") for a_ in c.args):
+            # (the constructor falls back to a cache of its own when the factory handed back nothing: made here, per dataset, either way)
+            ok = True
+            form = "the result of calling the factory here, or a fresh MemoryCache"
         else:
             ok = False
             form = ck[:60]
@@ -773,6 +796,10 @@ def _op_sites(repo, m, cls, fn) -> List[ast.Call]:
             # (… also where the parameter is declared as that: ``spec: Union[Cache[A], Callable[..., Cache[A]], None]``)
             ann_ = next((a.annotation for a in fn.args.posonlyargs + fn.args.args + fn.args.kwonlyargs if a.arg == f0.id), None)
             ann_txt = (ann_.value if isinstance(ann_, ast.Constant) and isinstance(ann_.value, str) else ast.unparse(ann_)) if ann_ is not None else ""
+            if ann_txt.isidentifier():
+                r_al = repo.resolve_name(m, ann_txt)         # a module-level alias (``CacheSpec = Union[Cache[A], Callable[..., Cache[A]], None]``)
+                if r_al and r_al[0] == "var" and r_al[1] is not None:
+                    ann_txt = ast.unparse(r_al[1])
             if "Callable" in ann_txt and "Cache" in ann_txt and "Evaluatable" not in ann_txt:
                 continue
             out.append(c)
